@@ -412,7 +412,19 @@ func init() {
 			sb.Threads, sb.Workers, sb.MaxPaths = true, 16, 5000000
 			sb.TimerBudget = 1
 			sb.Stubs = map[string]interceptFn{repoModule + "/internal/transfer.readAtWithPool": stubReadAtDirect}
-			js := []*Job{tr, hj("C01.streamid", "H_C01_streamid", "virtual stream ids are injective"), sb}
+			ee := hj("C01.endtoend", "H_C01_endtoend", "real sender and real receiver against each other over an in-memory connection: files of 1,4,5,8 bytes + an empty file, resume on/off, canonical schedule")
+			ep := hj("C01.endtoend-preempt", "H_C01_endtoend_preempt", "as C01.endtoend for 5 bytes, every schedule with one preemption at a lock, unlock, channel operation or select")
+			if tier == "thorough" {
+				ep = hj("C01.endtoend-preempt", "H_C01_endtoend_preempt_deep", "as C01.endtoend for 4,5,8 bytes, resume on/off, every schedule with one preemption")
+			}
+			ep.Preempt = 1
+			for _, j := range []*Job{ee, ep} {
+				j.Threads, j.Workers, j.MaxPaths = true, 16, 5000000
+				j.TimersNeverFire = true
+				j.CanonicalBlock = true
+				j.Stubs = map[string]interceptFn{repoModule + "/internal/transfer.readAtWithPool": stubReadAtDirect}
+			}
+			js := []*Job{tr, hj("C01.streamid", "H_C01_streamid", "virtual stream ids are injective"), sb, ee, ep}
 			if tier == "thorough" {
 				pr := hj("C01.tree-preempt", "H_C01_tree", "healthy scripted sender, schedules with one preemption of a goroutine at a select")
 				pr.Threads, pr.TimersNeverFire, pr.Workers, pr.MaxPaths = true, true, 16, 5000000
@@ -523,7 +535,13 @@ func init() {
 				pl = jobResumePlan("C04.plan", 5)
 			}
 			pl.Workers = 8
-			return []*Job{r, pl}
+			ee := hj("C04.endtoend", "H_C04_endtoend", "second run with both real endpoints: metadata + intact/shortened/missing data file, possibly damaged last marked chunk; canonical schedule")
+			if tier == "thorough" {
+				ee = hj("C04.endtoend", "H_C04_endtoend_deep", "as quick for files of 5, 8, 9 bytes")
+			}
+			ee.Threads, ee.Workers, ee.MaxPaths, ee.TimersNeverFire, ee.CanonicalBlock = true, 16, 5000000, true, true
+			ee.Stubs = map[string]interceptFn{repoModule + "/internal/transfer.readAtWithPool": stubReadAtDirect}
+			return []*Job{r, pl, ee}
 		},
 	})
 
@@ -568,6 +586,13 @@ func init() {
 			df.EagerCalls = []string{"writeFileDone", "hashFileChunk"}
 			df.Preempt, df.PreemptAt = 1, "select"
 			js = append(js, df)
+			rp := hj("C06.repair", "H_C06_repair", "second run with both real endpoints where the highest marked chunk is damaged on disk: detected by hash and repaired")
+			if tier == "thorough" {
+				rp = hj("C06.repair", "H_C06_repair_deep", "as quick for files of 5, 8, 9 bytes")
+			}
+			rp.Threads, rp.Workers, rp.MaxPaths, rp.TimersNeverFire, rp.CanonicalBlock = true, 16, 5000000, true, true
+			rp.Stubs = map[string]interceptFn{repoModule + "/internal/transfer.readAtWithPool": stubReadAtDirect}
+			js = append(js, rp)
 			return js
 		},
 	})
